@@ -59,7 +59,7 @@ fn gen_tpl(rng: &mut Rng) -> Tpl {
     };
     let min_eligible_ops = is_min && second.map(|o| o == ">" || o == ">=").unwrap_or(true);
     let second_txt = second.map(|o| format!(" @filter(op: \"{o}\", value: [\"$b\"])")).unwrap_or_default();
-    let shape = rng.below(5);
+    let shape = rng.below(8);
     let (body, observed, count_out): (String, bool, Option<String>) = match shape {
         0 => {
             // plain count filter, nothing observes the count or the contents
@@ -83,6 +83,24 @@ fn gen_tpl(rng: &mut Rng) -> Tpl {
             // nested fold with outputs inside the counted fold
             let q = |extra: &str| format!(
                 "query {{\n  Thing {{\n    id @output(name: \"o0\")\n    {e1} @fold @transform(op: \"count\") @filter(op: \"{op}\", value: [\"$a\"]){second_txt}{extra} {{\n      flag @filter(op: \"is_not_null\")\n      {e3} @fold {{\n        id @output(name: \"o1\")\n      }}\n    }}\n  }}\n}}\n");
+            (q(""), true, Some(q(" @output(name: \"cnt\")")))
+        }
+        5 => {
+            // the only thing observing the counted fold is a COUNT output of a fold nested inside it
+            let q = |extra: &str| format!(
+                "query {{\n  Thing {{\n    id @output(name: \"o0\")\n    {e1} @fold @transform(op: \"count\") @filter(op: \"{op}\", value: [\"$a\"]){second_txt}{extra} {{\n      flag @filter(op: \"is_not_null\")\n      {e3} @fold @transform(op: \"count\") @output(name: \"o1\")\n    }}\n  }}\n}}\n");
+            (q(""), true, Some(q(" @output(name: \"cnt\")")))
+        }
+        6 => {
+            // outputs two fold levels below the counted fold
+            let q = |extra: &str| format!(
+                "query {{\n  Thing {{\n    id @output(name: \"o0\")\n    {e1} @fold @transform(op: \"count\") @filter(op: \"{op}\", value: [\"$a\"]){second_txt}{extra} {{\n      flag @filter(op: \"is_not_null\")\n      {e3} @fold {{\n        flag @filter(op: \"is_not_null\")\n        {e2} @fold @transform(op: \"count\") @output(name: \"o2\") {{\n          id @output(name: \"o1\")\n        }}\n      }}\n    }}\n  }}\n}}\n");
+            (q(""), true, Some(q(" @output(name: \"cnt\")")))
+        }
+        7 => {
+            // the count tag is imported two fold levels down inside a sibling fold
+            let q = |extra: &str| format!(
+                "query {{\n  Thing {{\n    id @output(name: \"o0\")\n    {e1} @fold @transform(op: \"count\") @filter(op: \"{op}\", value: [\"$a\"]){second_txt} @tag(name: \"c\"){extra} {{\n      flag @filter(op: \"is_not_null\")\n    }}\n    {e2} @fold {{\n      flag @filter(op: \"is_not_null\")\n      {e3} @fold {{\n        id @filter(op: \"<=\", value: [\"%c\"]) @output(name: \"o1\")\n      }}\n    }}\n  }}\n}}\n");
             (q(""), true, Some(q(" @output(name: \"cnt\")")))
         }
         _ => {
@@ -175,5 +193,58 @@ pub fn run(seed: u64, n: usize, out: &mut Out) {
             }
         }
         done += 1;
+    }
+}
+
+
+/// Deep `@recurse` through the edge that needs the implicit coercion (Item.up leads to Thing, which has
+/// no `up`), and through plain edges, with nested selections: tie + specification oracle.
+pub fn run_deep_recursion(seed: u64, n: usize, out: &mut Out) {
+    let mut rng = Rng::new(seed ^ 0xdee9);
+    let schema = world::schema();
+    for i in 0..n {
+        let mut r2 = rng.fork();
+        let root = *r2.pick(&["Item", "Box", "Leaf", "Thing"]);
+        let d = r2.range(2, 5);
+        let (edge, hi) = if root == "Thing" {
+            (*r2.pick(&["next", "link", "parent"]), "")
+        } else {
+            (*r2.pick(&["up", "up", "peer", "next"]), "")
+        };
+        let hi = if edge == "up" { *r2.pick(&["", "(hi: 1000)", "(hi: 6)"]) } else { hi };
+        let inner = match r2.range(0, 4) {
+            0 => "id @output".to_string(),
+            1 => "id @output next @optional { id @output(name: \"n\") }".to_string(),
+            2 if edge == "up" => format!("... on Item {{ id @output up{hi} @recurse(depth: {}) {{ id @output(name: \"deep\") }} }}", r2.range(2, 4)),
+            3 => "id @output link @fold { id @output(name: \"l\") }".to_string(),
+            _ => "id @output score @filter(op: \"is_not_null\")".to_string(),
+        };
+        let text = format!("query {{ {root} {{ id @output(name: \"r\") {edge}{hi} @recurse(depth: {d}) {{ {inner} }} }} }}");
+        let indexed = match parse(&schema, &text) {
+            Ok(ix) => ix,
+            Err(_) => {
+                out.count("deep-recursion:template-rejected");
+                continue;
+            }
+        };
+        out.count("family:deep-recursion");
+        let c = EngineCase {
+            dataset: world::gen_dataset(&mut r2, 9),
+            query_text: text.clone(),
+            indexed,
+            args: Arc::new(BTreeMap::new()),
+            features: Default::default(),
+            var_hints: Default::default(),
+        };
+        let o = run_impl(&c);
+        let imp = show_outcome(&o);
+        let nontrivial = matches!(&o, Outcome::Rows(r) if !r.is_empty());
+        let input = case_input_json(&c);
+        let coq_args = case_coq_args(&c);
+        if let Outcome::Panic(m) = &o {
+            out.oracle_fail("executing an accepted query panicked", input.clone(), json!({"panic": m.chars().take(300).collect::<String>()}));
+        }
+        out.add(Case { input: input.clone(), coq: format!("run_exec {coq_args}"), imp: imp.clone(), nontrivial, key: format!("dr{i}:{text}") });
+        out.add_spec(Case { input, coq: format!("run_sem {coq_args}"), imp, nontrivial, key: format!("sdr{i}:{text}") }, None);
     }
 }
